@@ -396,7 +396,9 @@ def c15_multi(case, obs):
             elif kind == "rewind":
                 bundling[k] = False
     for k in case["keys"]:           # each run on its own
-        sub = [(op, o) for (kk, op), o in zip(case["mops"], obs) if kk == k and op[0] not in ("checkpoint", "configure")]
+        # the run's own messages, including its configure messages (they re-describe the run's streams, so their
+        # descriptors are part of the run's document stream); checkpoints emit nothing and are judged above
+        sub = [(op, o) for (kk, op), o in zip(case["mops"], obs) if kk == k and op[0] != "checkpoint"]
         why = c15({"devs": case["devs"], "ops": [x[0] for x in sub]}, [x[1] for x in sub])
         if why:
             return "run key %d: %s" % (k, why)
